@@ -148,4 +148,135 @@ Section Pass.
         rewrite !fold_left_app. split; [exact H4|]. split; [exact Hnd4|]. split; [exact HG4|].
         eapply frame_trans; eassumption.
   Qed.
+
+  (** * The judgement at the end of a full pass *)
+  Lemma filter_index {A} (P : A -> bool) (dflt : A) l :
+    length (filter P l) = length (filter (fun i => P (nth i l dflt)) (seq 0 (length l))).
+  Proof.
+    induction l as [|a l IH]; [reflexivity|].
+    assert (forall m, length (filter (fun i => P (nth i (a :: l) dflt)) (map S m)) = length (filter (fun i => P (nth i l dflt)) m)) as Hm.
+    { induction m as [|x m IHm]; [reflexivity|]. cbn [map filter]. change (nth (S x) (a :: l) dflt) with (nth x l dflt).
+      destruct (P (nth x l dflt)); cbn [length]; rewrite IHm; reflexivity. }
+    cbn [length seq]. rewrite <- seq_shift. cbn [filter]. change (nth 0 (a :: l) dflt) with a.
+    destruct (P a); cbn [length]; rewrite Hm, IH; reflexivity.
+  Qed.
+
+  Lemma count_by_index {A} (P : A -> bool) (dflt : A) l idxs :
+    NoDup idxs -> (forall i, In i idxs <-> (i < length l)%nat /\ P (nth i l dflt) = true) ->
+    length (filter P l) = length idxs.
+  Proof.
+    intros Hnd Hiff. rewrite (filter_index P dflt). apply Permutation_length. apply NoDup_Permutation.
+    - apply NoDup_filter, seq_NoDup.
+    - exact Hnd.
+    - intro i. rewrite filter_In, in_seq, Hiff. split; [intros [A0 B0]; split; [lia | exact B0] | intros [A0 B0]; split; [lia | exact B0]].
+  Qed.
+
+  Lemma pev15_ok tr e : k_ok (pev15 tr e) = k_ok tr.
+  Proof. destruct e as [l w c old|t b]; [destruct c; reflexivity|]. destruct b as [| |y r| | | | |]; try reflexivity. destruct r; reflexivity. Qed.
+
+  Lemma fold_pev15_ok e tr : k_ok (fold_left pev15 e tr) = k_ok tr.
+  Proof. revert tr. induction e as [|x e IH]; intro tr; [reflexivity|]. cbn [fold_left]. rewrite IH. apply pev15_ok. Qed.
+
+  Lemma judge_ok s d tr Q :
+    INV mx specs s d tr None None Q [] -> no_due s d -> GG mx s Q [] ->
+    negb (pending tr) || (mx <=? alive tr) = true.
+  Proof.
+    intros H Hnd HG.
+    destruct (pending tr) eqn:Hp; [|reflexivity]. cbn [negb orb].
+    (* whoever is pending was never started: every slot is taken *)
+    unfold pending in Hp. apply existsb_exists in Hp as (st & Hin & Hst).
+    apply In_nth_error in Hin as (t & Ht).
+    assert (status tr t = st) as Hstat by (unfold status; apply nth_error_nth, Ht).
+    assert (t < length specs)%nat as Htl.
+    { rewrite <- (i_len _ _ _ _ _ _ _ _ _ H). apply nth_error_Some. congruence. }
+    assert (mx <= c_run s) as Hmx.
+    { destruct st as [| |T|]; cbn [pending_stat] in Hst; try discriminate.
+      - assert (In t Q) as HQ by (apply (i_Qst _ _ _ _ _ _ _ _ _ H); split; assumption).
+        destruct HG as [->|[Hx|Hx]]; [destruct HQ | congruence | exact Hx].
+      - apply (i_act _ _ _ _ _ _ _ _ _ H) in Hstat. discriminate.
+      - exfalso. destruct (i_asleep _ _ _ _ _ _ _ _ _ H t T Hstat) as (w & k & n & lg & [[]|[[]|Hw]] & _).
+        apply Hnd in Hw. rewrite (i_clock _ _ _ _ _ _ _ _ _ H) in Hst. lia. }
+    (* ... by a worker that is legitimately blocked *)
+    assert (alive tr = Z.of_nat (length (parked_ws d))) as Hal.
+    { unfold alive. f_equal. apply (count_by_index _ Ready).
+      - pose proof (i_nd _ _ _ _ _ _ _ _ _ H) as Hx. unfold allw in Hx. cbn [curw app] in Hx. exact Hx.
+      - intro w. rewrite (i_clock _ _ _ _ _ _ _ _ _ H). split.
+        + intro Hin. unfold parked_ws in Hin. apply in_map_iff in Hin as ([T w'] & Hs & Hin). cbn [snd] in Hs. subst w'.
+          destruct (i_parked _ _ _ _ _ _ _ _ _ H T w Hin) as (k & t0 & n & lg & Hk & Hks & _).
+          pose proof (i_trk _ _ _ _ _ _ _ _ _ H w) as Htr. rewrite Hk, Hks in Htr.
+          split.
+          * destruct (lt_dec w (length (k_workers tr))) as [Hl|Hl]; [exact Hl|].
+            rewrite nth_overflow in Htr by lia. discriminate.
+          * rewrite Htr. cbn [blocked]. specialize (Hnd T w Hin). lia.
+        + intros [Hl Hb]. pose proof (i_trk _ _ _ _ _ _ _ _ _ H w) as Htr.
+          destruct (nth_error (c_ws s) w) as [k|] eqn:Hk.
+          * destruct (i_other _ _ _ _ _ _ _ _ _ H w k Hk) as [Hin|[r Hc]].
+            -- unfold allw in Hin. cbn [curw app] in Hin. exact Hin.
+            -- rewrite Htr, Hc in Hb. discriminate.
+          * rewrite Htr in Hb. discriminate. }
+    rewrite Hal. rewrite (i_run _ _ _ _ _ _ _ _ _ H) in Hmx. unfold allw in Hmx. cbn [curw app] in Hmx. lia.
+  Qed.
+
+  (** * One pass, as an operation *)
+  Lemma nodup_bound (l : list nat) n : NoDup l -> (forall x, In x l -> x < n)%nat -> (length l <= n)%nat.
+  Proof.
+    intros Hnd Hlt. rewrite <- (seq_length n 0). apply NoDup_incl_length; [exact Hnd|].
+    intros x Hx. apply in_seq. specialize (Hlt x Hx). lia.
+  Qed.
+
+  Lemma nwk_le s R : (nwk s R <= length R)%nat.
+  Proof. unfold nwk. induction R as [|x R0 IHR]; [cbn; lia|]. cbn [filter length]. destruct (wokenb s x); cbn [length]; lia. Qed.
+
+  Lemma mu_lt_fuel s d tr Q R :
+    INV mx specs s d tr None None Q R -> (mu s d Q R < pass_fuel_p (mkx mx s))%nat.
+  Proof.
+    intro H. unfold mu, mm, pass_fuel_p, wfuel.
+    change (pw_tbody (mkx mx s)) with (c_tb s). change (pw_workers (mkx mx s)) with (c_ws s).
+    assert (length Q <= length (c_tb s))%nat as HQ.
+    { apply nodup_bound; [apply (i_Qnd _ _ _ _ _ _ _ _ _ H)|]. intros t Ht.
+      rewrite (i_tb _ _ _ _ _ _ _ _ _ H), map_length. apply (i_Qst _ _ _ _ _ _ _ _ _ H), Ht. }
+    assert (length R + length (sd_sys_suspend d) <= length (c_ws s))%nat as HW.
+    { pose proof (nodup_bound _ _ (i_nd _ _ _ _ _ _ _ _ _ H) (i_lt _ _ _ _ _ _ _ _ _ H)) as Hx.
+      unfold allw, parked_ws in Hx. cbn [curw app] in Hx. rewrite app_length, map_length in Hx. exact Hx. }
+    pose proof (nwk_le s R) as HN.
+    set (a := fold_right Nat.add 0%nat (map (fun b : list instr => S (S (length b))) (c_tb s))).
+    nia.
+  Qed.
+
+  Lemma pass_fuel_pos x : exists f, pass_fuel_p x = S f.
+  Proof. unfold pass_fuel_p. cbn [Nat.mul Nat.add]. eexists. reflexivity. Qed.
+
+  Lemma frame_clock s s' : frame s s' -> c_clock s' = c_clock s.
+  Proof. intros [A _]. exact A. Qed.
+
+  Lemma ppass_inv s tr Q R dl :
+    INV mx specs s (c_d s) tr None None Q R ->
+    exists s' l e Q' R',
+      ppass (mkx mx s) 0 dl = (mkx mx s', PLeft l, e) /\ frame s s' /\
+      INV mx specs s' (c_d s') (fold_left pev15 e tr) None None Q' R' /\
+      (0 < l -> R' = [] /\ no_due s' (c_d s') /\ GG mx s' Q' []).
+  Proof.
+    intro H.
+    destruct (inv_grow mx specs s (c_d s) tr None None Q R H) as (R0 & H0 & _ & HG0).
+    assert (c_d (grow mx s) = c_d s) as Hd.
+    { unfold grow. destruct (full_len (c_tq s) =? 0); [reflexivity|]. destruct (mx <=? c_run s); reflexivity. }
+    pose proof (frame_grow mx s) as Hfr0.
+    destruct (Z.eq_dec (sat_sub dl (c_clock (grow mx s))) 0) as [Hcut|Hlive].
+    - (* the deadline has passed already *)
+      destruct (pass_fuel_pos (mkx mx (grow mx s))) as [f Hf].
+      assert (sd_suspend (c_d (grow mx s)) = []) as Hsusp by (rewrite Hd; apply (i_susp _ _ _ _ _ _ _ _ _ H)).
+      pose proof (dsch_cut mx (grow mx s) (c_d (grow mx s)) dl f [] [] Hcut) as Hc. rewrite <- Hf in Hc.
+      rewrite (ppass_mk mx s dl _ _ _ _ _ Hc).
+      exists (s_d (grow mx s) (c_d (grow mx s))), 0, [], Q, R0. split; [reflexivity|].
+      split; [eapply frame_trans; [exact Hfr0 | split; reflexivity]|].
+      split; [|lia]. cbn [fold_left c_d s_d]. rewrite Hd. eapply inv_same; [..|exact H0]; reflexivity.
+    - destruct (pass_loop dl (pass_fuel_p (mkx mx (grow mx s))) (grow mx s) (c_d s) tr Q R0 [] [] H0 HG0 Hlive (mu_lt_fuel _ _ _ _ _ H0))
+        as (s' & d' & e & res' & Q' & Heq & H1 & Hnd1 & HG1 & Hfr1).
+      rewrite <- Hd in Heq at 1. cbn [app] in Heq.
+      rewrite (ppass_mk mx s dl _ _ _ _ _ Heq).
+      exists (s_d s' d'), (sat_sub dl (c_clock (grow mx s))), e, Q', []. split; [reflexivity|].
+      split; [eapply frame_trans; [exact Hfr0|]; eapply frame_trans; [exact Hfr1 | split; reflexivity]|].
+      split; [cbn [c_d s_d]; eapply inv_same; [..|exact H1]; reflexivity|].
+      intros _. split; [reflexivity|]. split; [exact Hnd1 | exact HG1].
+  Qed.
 End Pass.
